@@ -11,7 +11,7 @@ RULE = ("state = statement skeleton over: v = <distinct literal>, use(v), if/els
         "infers for v at the use (+unbound if an undefined_name/possibly_undefined_name diagnostic is emitted there); oracles: strict = exhaustive concrete execution under "
         "every environment answer sequence (conditions true/false/raise, calls return/raise, for-loops 0/1/2 iterations), liberal = static may-reach analysis with exception "
         "edges after every statement of a try/with body and loop exit after any iteration; required strict <= reported <= liberal")
-ASSUMPTIONS = ["strict is a set of real observations (lower bound of the true strict set)", "nested functions, global/nonlocal and del are outside this grammar (see DESIGN.md)",
+ASSUMPTIONS = ["strict is a set of real observations (lower bound of the true strict set)", "nested functions appear as a closure read and a nonlocal write, each called right after its def; global and del are outside this grammar (see DESIGN.md)",
                "opaque calls c(), it(), use() are annotated so that pyanalyze cannot see through them"]
 MAXTASKS = 8
 UNB = "<unbound>"
@@ -53,7 +53,7 @@ def gen_stmt(depth, size, in_loop, memo={}):
         return memo[key]
     out = []
     if size == 1:
-        out = [("asg",), ("use",), ("ret",), ("raise",)]
+        out = [("asg",), ("use",), ("ret",), ("raise",), ("nuse",), ("nasg",)]
         if in_loop:
             out += [("brk",), ("cont",)]
     elif depth > 0:
@@ -126,11 +126,15 @@ def skeletons(tier):
     for size in range(2, 6 if tier == "thorough" else 5):
         for blk in gen_block(depth, size, False):
             flat = repr(blk)
-            if "'use'" not in flat or "'asg'" not in flat:
+            if ("'use'" not in flat and "'nuse'" not in flat) or ("'asg'" not in flat and "'nasg'" not in flat):
                 continue
+            if "'nasg'" in flat and "'asg'" not in flat:
+                continue        # `nonlocal v` needs a binding of v in the enclosing function
             if _has_dead_tail(blk):
                 continue        # a statement directly after return/raise/break/continue in the same block is dead code: no path, no claim
             if size == 5 and (not _kinds(blk, set()) <= LOOPFREE or _has_loop_else(blk)):
+                continue
+            if "'nasg'" in flat and not compiles(blk):
                 continue
             out.append(blk)
     return out
@@ -147,6 +151,17 @@ def render(block, ind, ctr):
         elif k == "use":
             ctr[1] += 1
             out.append("%suse(v, %d)" % (pad, ctr[1]))
+        elif k == "nuse":
+            ctr[1] += 1
+            out.append("%sdef inner_%d() -> None:" % (pad, ctr[1]))
+            out.append("%s    use(v, %d)" % (pad, ctr[1]))
+            out.append("%sinner_%d()" % (pad, ctr[1]))
+        elif k == "nasg":
+            ctr[0] += 1
+            out.append("%sdef setter_%d() -> None:" % (pad, ctr[0]))
+            out.append("%s    nonlocal v" % pad)
+            out.append("%s    v = %d" % (pad, ctr[0]))
+            out.append("%ssetter_%d()" % (pad, ctr[0]))
         elif k == "ret":
             out.append(pad + "return")
         elif k == "raise":
@@ -187,6 +202,14 @@ def render(block, ind, ctr):
             out.append(pad + "while True:")
             out += render(st[1], ind + 1, ctr)
     return out
+
+
+def compiles(blk):
+    try:
+        compile(source(blk), "<c09>", "exec")
+        return True
+    except SyntaxError:
+        return False
 
 
 def source(blk):
@@ -295,6 +318,7 @@ class _Flow:
         self.uses = collections.defaultdict(set)
         self.ctr = [0, 0]
         self.live_defs = set()
+        self.nested_uses = set()
 
     @staticmethod
     def join(*ss):
@@ -323,9 +347,9 @@ class _Flow:
 
     def skip(self, st):
         k = st[0]
-        if k == "asg":
+        if k in ("asg", "nasg"):
             self.ctr[0] += 1
-        elif k == "use":
+        elif k in ("use", "nuse"):
             self.ctr[1] += 1
         else:
             for sub in st[1:]:
@@ -344,6 +368,17 @@ class _Flow:
             self.ctr[1] += 1
             self.uses[self.ctr[1]] |= S
             return dict(E, normal=S, exc=S)
+        if k == "nuse":
+            # a closure read: the nested function may observe any assignment of the enclosing function (filled in afterwards)
+            self.ctr[1] += 1
+            self.uses[self.ctr[1]] |= S
+            self.nested_uses.add(self.ctr[1])
+            return dict(E, normal=S, exc=S)
+        if k == "nasg":
+            # a nonlocal write in a nested function that is called right away; generous: the old values stay possible
+            self.ctr[0] += 1
+            self.live_defs.add(self.ctr[0])
+            return dict(E, normal=S | frozenset([self.ctr[0]]), exc=S | frozenset([self.ctr[0]]))
         if k == "ret":
             return dict(E, ret=S)
         if k == "raise":
@@ -428,6 +463,8 @@ def liberal_obs(blk):
     r = f.block(blk, frozenset([UNB]))
     if r["normal"] is not None:
         f.uses[99] |= r["normal"]
+    for k in f.nested_uses:
+        f.uses[k] |= set(f.live_defs) | {UNB}
     f.uses["live_defs"] = f.live_defs
     return f.uses
 
@@ -475,14 +512,14 @@ def _contexts(blk):
     def walk(b, path, le="-"):
         for st in b:
             k = st[0]
-            if k == "asg":
+            if k in ("asg", "nasg"):
                 ctr[0] += 1
-                defs[ctr[0]] = path
+                defs[ctr[0]] = path + (["nested-def"] if k == "nasg" else [])
                 if any(p in ("while.else", "for.else") for p in path):
                     else_asg[0] = True
-            elif k == "use":
+            elif k in ("use", "nuse"):
                 ctr[1] += 1
-                uses[ctr[1]] = path
+                uses[ctr[1]] = path + (["nested-def"] if k == "nuse" else [])
                 loop_else[ctr[1]] = le
             elif k in ("ret", "raise", "brk", "cont"):
                 jumps.add(k)
@@ -513,15 +550,13 @@ def _ctx(path):
     return "/".join(path[-2:]) if path else "top"
 
 
-def _run(res, tier, blks, base):
+def _reported(blks):
+    """check the given skeletons as ONE module; returns per skeleton (rep dict, has_internal_error)"""
     from pyanalyze.value import AnyValue, KnownValue, flatten_values, UNINITIALIZED_VALUE
     from pa.run import Rec, check
-    maxdec = 7 if tier == "quick" else 9
-    # one module for the whole unit
     srcs = [source(b).replace("def run()", "def run_%d()" % k) for k, b in enumerate(blks)]
     code = PRE + "".join(srcs)
     fails, tree = check(code, visitor_cls=Rec, want_tree=True)
-    res.transitions += 1
     und = collections.defaultdict(set)
     internal = set()
     for f in fails:
@@ -530,15 +565,9 @@ def _run(res, tier, blks, base):
         if f["code"].name == "internal_error":
             internal.add(f.get("lineno"))
     fns = {n.name: n for n in tree.body if isinstance(n, ast.FunctionDef) and n.name.startswith("run_")}
+    out = []
     for k, blk in enumerate(blks):
-        res.states += 1
-        order = base + k
         fn = fns["run_%d" % k]
-        src = source(blk)
-        case = {"skeleton": blk, "order": order}
-        if any(fn.lineno <= (l or 0) <= fn.end_lineno for l in internal):
-            res.violation({"kind": "internal_error", "constructs": _constructs(blk)}, case, "internal_error while checking\n" + src)
-            continue
         rep = {}
         for n in ast.walk(fn):
             if isinstance(n, ast.Call) and isinstance(n.func, ast.Name) and n.func.id == "use":
@@ -554,9 +583,60 @@ def _run(res, tier, blks, base):
                             s.add(sv.val)
                         elif sv is UNINITIALIZED_VALUE:
                             s.add(UNB)
+                        elif isinstance(sv, AnyValue):
+                            s.add("<any>")
                 if und.get(n.args[0].lineno):
                     s.add(UNB)
                 rep[kk] = s
+        out.append((rep, any(fn.lineno <= (l or 0) <= fn.end_lineno for l in internal)))
+    return out
+
+
+def _run(res, tier, blks, base, pair=None):
+    maxdec = 7 if tier == "quick" else 9
+    # (1) every skeleton is judged in a module of its own ...
+    alone = [_reported([b])[0] for b in blks]
+    res.transitions += len(blks)
+    # (2) ... and all skeletons of the unit once more as one module: unrelated functions in the same file must not change a function's result
+    if len(blks) > 1:
+        together = _reported(blks)
+        res.transitions += 1
+        for k, blk in enumerate(blks):
+            res.validated += 1
+            same = together[k][0] == alone[k][0]
+            res.outcomes["same-file-independence:%s" % ("holds" if same else "broken")] += 1
+            if not same:
+                # find one other function that is enough to cause it (replayable pair)
+                culprit = None
+                for j in range(len(blks)):
+                    if j == k:
+                        continue
+                    two = [blks[j], blk] if j < k else [blk, blks[j]]
+                    r2 = _reported(two)
+                    res.transitions += 1
+                    if r2[1 if j < k else 0][0] != alone[k][0]:
+                        culprit = j
+                        break
+                if culprit is None:
+                    res.violation({"kind": "same-file-interference", "culprit": "several-functions"}, {"skeleton": blk, "unit": [list(map(list, [()]))], "order": base + k},
+                                  "checked together with the other %d functions of its unit this function is reported differently than alone, but no single other function causes it:\n%s" % (len(blks) - 1, source(blk)))
+                else:
+                    res.violation({"kind": "same-file-interference", "culprit": _constructs(blks[culprit]) or "plain", "order_in_file": "before" if culprit < k else "after"},
+                                  {"pair": [blks[culprit], blk] if culprit < k else [blk, blks[culprit]], "victim": 1 if culprit < k else 0, "order": base + k},
+                                  "a function is reported differently when this unrelated function stands in the same file:\n%s\nvictim:\n%s\nalone %s\ntogether %s"
+                                  % (source(blks[culprit]), source(blk), {a: sorted(map(str, b)) for a, b in alone[k][0].items() if b is not None},
+                                     {a: sorted(map(str, b)) for a, b in together[k][0].items() if b is not None}))
+    if pair is not None:
+        return
+    for k, blk in enumerate(blks):
+        res.states += 1
+        order = base + k
+        src = source(blk)
+        case = {"skeleton": blk, "order": order}
+        rep, has_internal = alone[k]
+        if has_internal:
+            res.violation({"kind": "internal_error", "constructs": _constructs(blk)}, case, "internal_error while checking\n" + src)
+            continue
         strict, nexec, capped = strict_obs(src, maxdec)
         res.transitions += nexec
         res.extra["executions"] += nexec
@@ -566,6 +646,7 @@ def _run(res, tier, blks, base):
         live_defs = lib.pop("live_defs")
         cons = _constructs(blk)
         uctx, dctx, jumps, else_asg, loop_else = _contexts(blk)
+        captured = str(int("'nuse'" in repr(blk) or "'nasg'" in repr(blk)))
         jmp = ",".join(sorted(jumps)) or "-"
         for kk in sorted(set(strict) | set(lib) | set(rep)):
             st_ = strict.get(kk, set())
@@ -586,6 +667,9 @@ def _run(res, tier, blks, base):
                 else:
                     res.outcomes["unvisited-and-unexecuted"] += 1
                 continue
+            if "<any>" in r:
+                res.outcomes["reported-any"] += 1
+                continue        # the value is not tracked (Any): it contains every definition and claims nothing
             miss = st_ - r
             extra = r - lb
             res.outcomes["ok" if not miss and not extra else ("missing" if miss else "extra")] += 1
@@ -593,13 +677,13 @@ def _run(res, tier, blks, base):
                 which = "unbound" if miss == {UNB} else ("value" if UNB not in miss else "both")
                 lit = next((x for x in sorted(miss, key=str) if x != UNB), None)
                 res.violation({"kind": "strict-not-reported", "missing": which, "use_ctx": _ctx(uctx.get(kk, [])), "def_ctx": _ctx(dctx[lit]) if lit in dctx else "-",
-                               "jumps": jmp, "else_asg": str(int(else_asg)), "loop_else": loop_else.get(kk, "-")}, case,
+                               "jumps": jmp, "else_asg": str(int(else_asg)), "loop_else": loop_else.get(kk, "-"), "captured": captured}, case,
                               "use %s: execution observes v in %s, reported %s (missing %s):\n%s" % (kk, sorted(map(str, st_)), sorted(map(str, r)), sorted(map(str, miss)), src))
             if extra:
                 which = "unbound" if extra == {UNB} else ("value" if UNB not in extra else "both")
                 lit = next((x for x in sorted(extra, key=str) if x != UNB), None)
-                res.violation({"kind": "reported-not-liberal", "extra": which, "def_dead": str(int(lit is not None and lit not in live_defs)), "use_ctx": _ctx(uctx.get(kk, [])), "def_ctx": _ctx(dctx[lit]) if lit in dctx else "-",
-                               "jumps": jmp, "else_asg": str(int(else_asg)), "loop_else": loop_else.get(kk, "-")}, case,
+                res.violation({"kind": "reported-not-liberal", "extra": which, "def_dead": str(int(lit is not None and lit not in live_defs)), "use_ctx": _ctx(uctx.get(kk, [])),
+                               "def_ctx": _ctx(dctx[lit]) if lit in dctx else "-", "jumps": jmp, "else_asg": str(int(else_asg)), "loop_else": loop_else.get(kk, "-"), "captured": captured}, case,
                               "use %s: reported %s but even the liberal analysis only allows %s (extra %s):\n%s" % (kk, sorted(map(str, r)), sorted(map(str, lb)), sorted(map(str, extra)), src))
         if order % 499 == 0:
             res.sample({"program": src, "strict": {str(a): sorted(map(str, b)) for a, b in strict.items()}, "liberal": {str(a): sorted(map(str, b)) for a, b in lib.items()},
@@ -619,6 +703,9 @@ def _tup(x):
 
 def replay(case):
     res = UnitResult()
+    if "pair" in case:
+        _run(res, "quick", [_tup(b) for b in case["pair"]], case.get("order", 0), pair=True)
+        return [v for v in res.viol.values() if v["sig"]["kind"] == "same-file-interference"]
     _run(res, "quick", [_tup(case["skeleton"])], case.get("order", 0))
     return list(res.viol.values())
 
